@@ -131,6 +131,21 @@ func HarnessBuild() {
 			verif.Assert("C08-metadata-unchanged", m != nil && *m == *wm)
 		}
 	}
+	// registry metadata is retrievable unchanged: the deprecation note of each resolved version is
+	// the one the registry attached to that version
+	for k := range regs {
+		r := int(k[1] - '0')
+		for _, info := range wRegVersions[r] {
+			if wVerKey(r, info.Version) == k {
+				dep := bundle.RegistryPackageVersionDeprecation(wRegPkg(r), info.Version)
+				if info.Deprecation == nil {
+					verif.Assert("C08-registry-deprecation-unchanged", dep == nil)
+				} else {
+					verif.Assert("C08-registry-deprecation-unchanged", dep != nil && dep.Reason == info.Deprecation.Reason && dep.Link == info.Deprecation.Link)
+				}
+			}
+		}
+	}
 	// no temporary directory left, nothing outside the target touched (C10)
 	for _, n := range envSnapshot(wTarget) {
 		verif.Assert("C10-no-temporary-directory-left", !wHasPrefix(n.Path, ".tmp-"))
